@@ -23,6 +23,8 @@ gn trait <T> <Trait> v,v,…             accessor                        -> rend
 gn ptrait <T> <Trait> <tval>           Parse<T>(typed trait constant)  -> ok:<v> | err
 gn marshal <T> <json|text|yaml> v,…    encoding, read back as a plain string                   -> s,s,…
 gn rt <T> <codec> v,…                  decode(encode v)                -> ok:<v>,…
+gn sdec <T> <codec> <Trait> <tval>     decode a scalar document holding that trait constant: what the
+                                       PROPERTY demands (the owning value), not the decoder model  -> ok:<v> | err
 gn dec <T> <codec> <doc>               doc = s:<hex> string | n:<literal> number | o:<hex> other scalar -> ok:<v> | err
 ```
 opt flags: `c` -caseInsensitive, `J` -json=false, `Y` -yaml=false, `T` -text=false.
@@ -164,6 +166,13 @@ def handle (st : St) (ws : List String) : St × String :=
       | "ptrait", [tr, w] =>
         match gf.traits.find? (fun x => x.name == tr), scalarOf w with
         | some x, some sc => (st, showRes (g.parse ⟨x.ty, sc⟩))
+        | none, _ => (st, "no-trait")
+        | _, _ => (st, "bad-op")
+      | "sdec", [_codec, tr, w] =>
+        -- SPEC side of decode-by-trait: a scalar holding a constant of a parsable trait decodes to
+        -- the owning value (= what Parse<T> of the typed constant returns, theorem parse_by_trait)
+        match gf.traits.find? (fun x => x.name == tr), scalarOf w with
+        | some x, some sc => (st, if x.parsable then showRes (g.parse ⟨x.ty, sc⟩) else "not-parsable")
         | none, _ => (st, "no-trait")
         | _, _ => (st, "bad-op")
       | "marshal", [_codec, w] =>
